@@ -125,20 +125,20 @@ NConfirmA ==
   /\ Log([op |-> "confirmA", sin |-> HB(net[1].S), ok |-> reply'.ok, exp |-> HB(reply'.key)])
 
 (* adversary actions, numbered per protocol point so that a tier can take a slice of them *)
-KindList == <<"inf", "offcurve", "range", "wide", "other", "short", "long", "prefix", "empty">>
+KindList == <<"inf", "offcurve", "range", "wide", "other", "short", "long", "prefix", "empty", "xwide32", "ywide32">>
 FlipList == <<1, 17, 32>>
-Base(at) == IF at = "RA" THEN 0 ELSE IF at = "RB" THEN 15 ELSE 30
+Base(at) == IF at = "RA" THEN 0 ELSE IF at = "RB" THEN 17 ELSE 34
 AdvOn(j) == ((sc + j) % AdvMod) = 0
 NAdv ==
   /\ net # <<>>
   /\ Len(adv) < MaxAdv
   /\ LET at == net[1].kind
          b == Base(at)
-     IN /\ \/ \E c \in 1..9 : at # "SA" /\ AdvOn(b + c) /\ ReplaceR(KindList[c])
-           \/ \E c \in 1..3 : AdvOn(b + 9 + c) /\ FlipConfirm(FlipList[c])
-           \/ AdvOn(b + 13) /\ TruncConfirm
-           \/ AdvOn(b + 14) /\ DropConfirm
-           \/ AdvOn(b + 15) /\ ForgeConfirm
+     IN /\ \/ \E c \in 1..11 : at # "SA" /\ AdvOn(b + c) /\ ReplaceR(KindList[c])
+           \/ \E c \in 1..3 : AdvOn(b + 11 + c) /\ FlipConfirm(FlipList[c])
+           \/ AdvOn(b + 15) /\ TruncConfirm
+           \/ AdvOn(b + 16) /\ DropConfirm
+           \/ AdvOn(b + 17) /\ ForgeConfirm
         /\ Log([op |-> "adv", what |-> adv'[Len(adv')].op, at |-> at, kind |-> adv'[Len(adv')].kind, pos |-> adv'[Len(adv')].pos])
 
 (* the genuine message reaches the initiator after it refused an altered one (once per run) *)
